@@ -440,8 +440,9 @@ func c20(c *core.Ctx) {
 				}
 				st := nt.Underlying().(*types.Struct)
 				chans := 0
-				for i := 0; i < st.NumFields(); i++ {
-					f := st.Field(i)
+				flat := core.FlatFields(st)
+				for _, ff := range flat {
+					f := ff.Var
 					key := typeKey(nt) + "." + f.Name() + ":container"
 					switch t := f.Type().Underlying().(type) {
 					case *types.Chan:
@@ -467,8 +468,8 @@ func c20(c *core.Ctx) {
 				slots := 0
 				var slotPos token.Pos
 				slotName := ""
-				for i := 0; i < st.NumFields(); i++ {
-					f := st.Field(i)
+				for _, ff := range flat {
+					f := ff.Var
 					t := f.Type()
 					if pt, isP := t.Underlying().(*types.Pointer); isP {
 						t = pt.Elem()
